@@ -2037,6 +2037,133 @@ fn phase_with_monitor(run: &Run, a: &PhaseArgs, shard: usize, nshards: usize, sa
 	});
 }
 
+// ------------------------------------------------------------------ look-ups while the header chain is on another fork
+
+/// Deterministic companion of the concurrent runs (found by them: thorough seed 1, short run 520): the body head is on
+/// fork A whose blocks carry transactions, the header chain has moved to a heavier, header-only fork B whose blocks are
+/// coinbase-only — so at the body head's height the header chain commits to FEWER kernels than the body's kernel MMR
+/// holds. Every kernel of the body chain is then looked up with get_kernel_height from a helper thread. The call holds
+/// header_pmmr.read() while it searches: one that never returns blocks every later header/block delivery, i.e. the node
+/// deadlocks. Verdict: no answer within 2 x 30 s (the look-up takes microseconds).
+fn diverged_header_chain_lookups(run: &Run, dir: &str, n_variants: u64) {
+	use std::sync::mpsc;
+	use vcommon::scenarios::mk_block;
+	init_thread(true);
+	for v in 0..n_variants {
+		let seed = mix(run.seed, 0xD1CE, v);
+		let mut h = Hist::new(seed, false);
+		let n_trunk = 4 + v % 4;
+		let a_len = 1 + (v / 4) % 3;
+		let b_len = a_len + (v / 2) % 3;
+		let mut tip = h.genesis.hash();
+		let mut body: Vec<GenBlock> = vec![];
+		for _ in 0..n_trunk {
+			let gb = mk_block(&mut h, &tip, &[], 10, "trunk");
+			tip = gb.hash;
+			body.push(gb);
+		}
+		let fork_point = tip;
+		let mut ok = true;
+		for _ in 0..a_len {
+			let coin = h.spendable(&tip).into_iter().next();
+			match coin {
+				Some(c) => {
+					let gb = mk_block(&mut h, &tip, &[c], 10, "body_fork_with_transactions");
+					tip = gb.hash;
+					body.push(gb);
+				}
+				None => ok = false,
+			}
+		}
+		let mut hdr_fork: Vec<GenBlock> = vec![];
+		let mut btip = fork_point;
+		for _ in 0..b_len {
+			let gb = mk_block(&mut h, &btip, &[], 1000, "header_only_fork_coinbase_only");
+			btip = gb.hash;
+			hdr_fork.push(gb);
+		}
+		if !ok || body.iter().chain(hdr_fork.iter()).any(|b| b.verdict.is_err()) {
+			run.count("diverged_header_chain.world_discarded", 1);
+			continue;
+		}
+		let d = format!("{}/diverged-{}", dir, v);
+		let chain = match open_chain_with(&d, &h.genesis, Arc::new(NoopAdapter {}), false) {
+			Ok(c) => Arc::new(c),
+			Err(e) => {
+				run.inconclusive(&format!("diverged_header_chain: {}", e));
+				return;
+			}
+		};
+		let mut set_up = true;
+		for b in &body {
+			set_up &= chain.process_block(b.block.clone(), h.opts()).is_ok();
+		}
+		for b in &hdr_fork {
+			set_up &= chain.process_block_header(&b.block.header, h.opts()).is_ok();
+		}
+		set_up &= chain.head().map(|t| t.last_block_h == tip).unwrap_or(false) && chain.header_head().map(|t| t.last_block_h == btip).unwrap_or(false);
+		if !set_up {
+			run.count("diverged_header_chain.state_not_reached", 1);
+			continue;
+		}
+		run.count("diverged_header_chain.states", 1);
+		if b_len >= a_len {
+			run.count("diverged_header_chain.states_where_the_header_chain_covers_the_body_height", 1);
+		}
+		for b in &body {
+			for k in b.block.kernels() {
+				let (tx, rx) = mpsc::channel();
+				let c2 = chain.clone();
+				let ex = k.excess;
+				std::thread::spawn(move || {
+					init_thread(true);
+					let r = catch(|| c2.get_kernel_height(&ex, None, None));
+					let _ = tx.send(r);
+				});
+				let mut got = rx.recv_timeout(Duration::from_secs(30));
+				if got.is_err() {
+					run.count("diverged_header_chain.lookup_slower_than_30s", 1);
+					got = rx.recv_timeout(Duration::from_secs(30));
+				}
+				run.count("diverged_header_chain.kernel_lookups", 1);
+				match got {
+					Err(_) => {
+						run.violation(
+							"C17;clause=call_never_returns;fn=get_kernel_height;state=header_chain_on_a_fork_with_fewer_kernels",
+							&format!(
+								"get_kernel_height({:?}) did not return within 60 s while holding header_pmmr.read(): body head at height {} on a fork with transactions, \
+								 header head at height {} on a header-only fork of coinbase-only blocks forking at height {}; kernel of the block at height {}",
+								ex, n_trunk + a_len, n_trunk + b_len, n_trunk, b.block.header.height
+							),
+							json!({"variant": v, "seed": seed, "trunk": n_trunk, "body_fork_len": a_len, "header_fork_len": b_len, "kernel_of_height": b.block.header.height,
+								"reproduce": "blocks trunk+A through process_block, headers of B through process_block_header, then get_kernel_height(excess, None, None)"}),
+						);
+						// the helper thread still holds the header MMR lock: leave the chain alone
+						std::mem::forget(chain);
+						return;
+					}
+					Ok(Err(pn)) => {
+						run.violation("C17;clause=panic;fn=get_kernel_height", &format!("panic: {}", pn.message), json!({"variant": v, "seed": seed}));
+					}
+					Ok(Ok(Err(_))) => run.count("diverged_header_chain.lookup_err", 1),
+					Ok(Ok(Ok(None))) => run.count("diverged_header_chain.lookup_none", 1),
+					Ok(Ok(Ok(Some((kk, height, _))))) => {
+						run.count("diverged_header_chain.lookup_found", 1);
+						if kk.excess != ex {
+							run.violation("C17;clause=kernel_lookup_answers_another_kernel", &format!("asked {:?}, got {:?}", ex, kk.excess), json!({"variant": v, "seed": seed}));
+						}
+						if height == b.block.header.height {
+							run.count("diverged_header_chain.lookup_height_right", 1);
+						}
+					}
+				}
+			}
+		}
+		drop(chain);
+		let _ = std::fs::remove_dir_all(&d);
+	}
+}
+
 // ------------------------------------------------------------------ main
 
 const RULE: &str = "run = one real Chain shared by 3-6 submitter threads and 3-7 reader/maintenance threads in one process, all released by a \
@@ -2083,6 +2210,7 @@ fn main() {
 		// sanitizer build: everything in this process so that reports reach the driver
 		let n_short = 10u64;
 		let n_long = 3u64;
+		diverged_header_chain_lookups(&run, &dir, 6);
 		let a = PhaseArgs { long: false, n: n_short, dir: dir.clone(), worlds: 1, only: None, deadline_s: 1500.0, small_worlds: true };
 		phase_with_monitor(&run, &a, 0, 1, true, false);
 		match build_long_world_files(mix(run.seed, 0x1096, 0), &dir, 0) {
@@ -2104,6 +2232,11 @@ fn main() {
 	// schedule is perturbed, not replayed
 	if let Some(path) = run.replay.clone() {
 		let v: Value = std::fs::read_to_string(&path).ok().and_then(|t| serde_json::from_str(&t).ok()).unwrap_or(Value::Null);
+		if v["signature"].as_str().map(|x| x.contains("call_never_returns") || x.contains("get_kernel_height")).unwrap_or(false) {
+			diverged_header_chain_lookups(&run, &dir, 36);
+			drop(sc);
+			run.finish();
+		}
 		let case = if v["case"]["first"].is_object() { v["case"]["first"].clone() } else { v["case"].clone() };
 		let long = case["world"].as_str() == Some("long") || case["long"].as_bool() == Some(true);
 		let k = case["k"].as_u64().unwrap_or(0);
@@ -2166,6 +2299,12 @@ fn main() {
 				}
 				run.set_max("max_long_world_build_ms", t.elapsed().as_millis() as u64);
 			});
+		}
+		{
+			let run = &run;
+			let dir = dir.clone();
+			let n = run.tier.pick(24u64, 96u64);
+			s.spawn(move || diverged_header_chain_lookups(run, &dir, n));
 		}
 		let extra: Vec<String> = vec!["--phase".into(), "short".into(), "--n".into(), n_short.to_string(), "--deadline".into(), phase_deadline.to_string()];
 		for r in run.spawn_workers(16, &extra, wd) {
@@ -2255,5 +2394,9 @@ fn main() {
 	req("segment.roots_checked", 500, 4000);
 	req("sched_points_perturbed", 10000, 100000);
 	req("same_plan_other_schedule_gave_other_interleaving", 10, 100);
+	if run.n_violations() == 0 {
+		req("diverged_header_chain.states_where_the_header_chain_covers_the_body_height", 12, 48);
+		req("diverged_header_chain.kernel_lookups", 150, 600);
+	}
 	run.finish();
 }
